@@ -444,6 +444,10 @@ class Ctx:
         for sig, detail in sorted(self.known_hits.items()):
             self._write_replay(sig, detail, "known")
             print("KNOWN-FINDING: property=%s %s" % (self.pid, sig), flush=True)
+        for k in self.known:
+            if k.get("status") == "open" and k.get("signature") not in self.known_hits:
+                print("NOTE: property=%s listed finding not reproduced in this run (tier=%s): %s"
+                      % (self.pid, self.tier, k.get("signature")), flush=True)
         rc = 0
         for sig, detail in self.violations:
             p = self._write_replay(sig, detail, "violation")
